@@ -1,4 +1,5 @@
 """C01 — compiling any source text ends in a program or positioned errors."""
+import os
 import itertools
 
 from celmodel.values import top_outcome
@@ -223,3 +224,23 @@ def recheck(cases, out, res):
     for c, r in zip(cases, out):
         print("observed:", str(r)[:600])
         check_compile(res, c, r)
+
+
+def extra_stages(tier, seed, scratch, total, notes):
+    """Thorough tier: replay part of the corpus through an AddressSanitizer build of the driver. A report
+    aborts the driver; the in-flight case is then recorded as an abort whose stderr names the sanitizer."""
+    if tier != 'thorough':
+        return
+    import runner
+    try:
+        binary, env, note = runner.build_variant('asan')
+    except runner.Inconclusive as e:
+        notes.append({"stage": "asan", "result": "inconclusive (toolchain): " + str(e)[:300]})
+        return
+    sub = [('exh', 1), ('exh', 2), ('nesting',)] + [(k, i) for i in range(6) for k in ('chars', 'tokens', 'valid', 'mutants', 'invalid')]
+    t = runner.run_units_with(__name__, sub, binary, os.path.join(scratch, "asan"), seed + 1000, 'quick', env=env)
+    notes.append({"stage": "asan", "build": note, "units": len(sub), "executions": t.evaluations,
+                  "sanitizer_reports": sum(1 for v in t.violations if 'Sanitizer' in v["sig"][2]),
+                  "statement": "no AddressSanitizer report on these executions (not a proof of memory safety)"})
+    t.observed = {"asan:" + k: v for k, v in t.observed.items() if not isinstance(v, set)}
+    total.merge(t)
